@@ -2,7 +2,7 @@
 # tools/seed_eval.sh <property-id> <worktree> [check-tier]
 # My own confirmation of a seeded change left as uncommitted edits in <worktree> with <worktree>/SEED/:
 #   1. the patch   2. demo WITH the change   3. existing suite WITH the change
-#   4. demo WITHOUT the change (git stash, _build rebuilt; rebuilt again after the pop)   5. my check against the worktree (REPO override: the
+#   4. demo WITHOUT the change (git apply -R, _build rebuilt; re-applied and rebuilt afterwards)   5. my check against the worktree (REPO override: the
 #      same sources as `git -C /repo apply`, without touching /repo; evidence/ is not written)
 set -u
 ID="$1"; W="$2"; TIER="${3:-quick}"
@@ -10,7 +10,11 @@ cd "$W" || exit 2
 echo "### patch"; git diff --stat -- src include subprojects | tail -3; git diff -- src include subprojects | grep -E '^[-+]' | grep -vE '^(\+\+\+|---)' | cut -c1-160 | head -40
 echo "### demo WITH the change"; timeout 600 sh SEED/build_and_run.sh "$W" >/tmp/seed_eval.with 2>&1; echo "exit=$?"; tail -3 /tmp/seed_eval.with | cut -c1-200
 echo "### existing suite WITH the change"; cmake --build _build -j6 >/dev/null 2>&1 || echo "BUILD FAILED"; ctest --test-dir _build -j3 --timeout 300 2>&1 | grep -E "tests passed|\*\*\*" | head -5
-echo "### demo WITHOUT the change"; git stash -q -- src include subprojects && { cmake --build _build -j6 >/dev/null 2>&1 || echo "BUILD FAILED"; timeout 600 sh SEED/build_and_run.sh "$W" >/tmp/seed_eval.without 2>&1; echo "exit=$?"; tail -2 /tmp/seed_eval.without | cut -c1-200; git stash pop -q; touch $(git diff --name-only -- src include subprojects); cmake --build _build -j6 >/dev/null 2>&1; }
+echo "### demo WITHOUT the change"   # not "git stash": the stash is shared by all worktrees of one repository
+git diff -- src include subprojects > /tmp/seed_eval.$$.diff
+if ! diff -q <(git diff -- src include) SEED/patch.diff >/dev/null 2>&1; then echo "NOTE: worktree diff differs from SEED/patch.diff"; diff <(git diff -- src include) SEED/patch.diff | head -10; fi
+git apply -R /tmp/seed_eval.$$.diff && { cmake --build _build -j6 >/dev/null 2>&1 || echo "BUILD FAILED"; timeout 600 sh SEED/build_and_run.sh "$W" >/tmp/seed_eval.without 2>&1; echo "exit=$?"; tail -2 /tmp/seed_eval.without | cut -c1-200; git apply /tmp/seed_eval.$$.diff; cmake --build _build -j6 >/dev/null 2>&1; }
+rm -f /tmp/seed_eval.$$.diff
 git status --short | head -4
 echo "### my check: REPO=$W ./check $ID $TIER"
 cd /verif && REPO="$W" timeout 2400 ./check "$ID" "$TIER" 2>&1 | grep -vE '^ *#[0-9]' | grep -E "VIOLATION|signature:|$ID $TIER:|KNOWN-FINDING|NOTE" | cut -c1-400 | head -10
